@@ -1128,3 +1128,358 @@ def H_canon_body(src: str) -> str:
         if isinstance(n, ast.Name):
             n.id = order[n.id]
     return norm(ast.unparse(tree))
+
+
+# ====================================================================== fourth layer: rules (r) - (t)
+# Structural conditions behind F185 (from_n3 un-escaped in several passes), F186 (from_n3 took numbers by str methods)
+# and F188 (graph digests hashed the language tag as written).  Helpers: vlib/h_c07.py (last section).
+
+_run_base3 = run
+
+
+def run(repo: Repo, rep: Report) -> None:  # noqa: F811
+    _run_base3(repo, rep)
+    rep.extra["explanation"] = rep.extra.get("explanation", "") + (
+        " (r) text in which the backslash escapes itself is un-escaped in one left-to-right pass, never by str.replace() of escape sequences, "
+        "and from_n3 hands Literal() the un-escaped text; (s) from_n3 takes a token for a number on a full match of the number grammar, which "
+        "agrees with the Turtle parser's number patterns on a table of witnesses (signed exponent, ASCII digits only); (t) where term text is "
+        "hashed into a graph digest, the n3() text of a literal that may carry a language tag is taken with the tag case-folded; (u) an escape pre-pass "
+        "in front of a pyparsing grammar (which un-escapes strings again) consumes an escaped backslash as a unit."
+    )
+    _rule_r_unescape_one_pass(repo, rep)
+    _rule_s_number_grammar(repo, rep)
+    _rule_t_digest_text(repo, rep)
+    _rule_u_prepass(repo, rep)
+
+
+def _is_literal_ctor(c: ast.AST) -> bool:
+    return isinstance(c, ast.Call) and ((isinstance(c.func, ast.Name) and c.func.id == "Literal") or (isinstance(c.func, ast.Attribute) and c.func.attr == "Literal"))
+
+
+# ---------------------------------------------------------------------- (r)
+def _unescapers(repo: Repo) -> dict:
+    """(module name, function) -> (module, def, replace() calls on escape sequences, substitutions anchored at a backslash) for every
+    function of the package that un-escapes text in one of these two ways"""
+    cached = getattr(repo, "_c07_unescapers", None)
+    if cached is None:
+        cached = {}
+        for name, mod in sorted(repo.modules.items()):
+            for q, fn in mod.functions():
+                esc = H.escape_sequence_replaces(fn)
+                subs = H.backslash_led_subs(repo, mod, fn)
+                if esc or subs:
+                    cached[(name, q)] = (mod, fn, esc, subs)
+        repo._c07_unescapers = cached  # type: ignore[attr-defined]
+    return cached
+
+
+def _rule_r_unescape_one_pass(repo: Repo, rep: Report) -> None:
+    rid = "C07.r-unescape-in-one-pass"
+    rep.rule(rid,
+             "n3 text has several escapes and the backslash escapes itself (\\\\ \\\" \\n \\uXXXX ...): a function un-escapes it in ONE left-to-right pass (one regular-expression "
+             "substitution anchored at the backslash, or a scanner).  x.replace(<backslash + character>, ...) handles one escape sequence wherever its two characters occur, also when "
+             "the backslash is the second half of an escaped backslash, and every later pass (another replace, a codec) reads text the earlier ones have already rewritten: "
+             "from_n3 read \"C:\\\\xampp\" (the n3() text of C:\\xampp) by .replace('\\\\x', '\\\\\\\\x') + unicode-escape and raised UnicodeDecodeError, and "
+             "read the n3() text of the lexical form \\x41 (backslash, x41) back as \\A and that of a\\\"b<LF>c (backslash, quote; long-string form, where the quote is written raw) back as a\"b<LF>c.  And from_n3 hands Literal() the text between the quotes only after un-escaping it", floor=5)
+    used = H.referenced_identifiers(repo)
+    unescapers = _unescapers(repo)
+    n_fn = 0
+    for (name, q), (mod, fn, esc, subs) in sorted(unescapers.items(), key=lambda kv: kv[0]):
+        if esc or subs:
+            rep.analysed("%s:%s" % (mod.rel, q))
+            if not esc:
+                n_fn += 1
+                rep.ob(rid, mod, q, "un-escapes by substitution anchored at the backslash, no replace() of escape sequences: %s" % " | ".join(sorted({p for _, p, _ in subs})), True, "one pass", node=fn)
+                continue
+            if fn.name not in used:
+                # defined but neither called, imported, nor exported anywhere in the package: on no path that reads a term back
+                rep.ob(rid, mod, q, "%d replace() calls on escape sequences, function not referenced in the package" % len(esc), True,
+                       "dead code: not on a read-back path (as written it mis-reads an escaped backslash followed by a letter of an escape)", node=fn, vacuous=True)
+                continue
+            for c in esc:
+                n_fn += 1
+                a = c.args[0].value
+                rep.ob(rid, mod, q, "replace(%r, %r)" % (a, c.args[1].value if isinstance(c.args[1], ast.Constant) else norm(c.args[1])), False,
+                       "the escape sequence %r is replaced wherever these characters occur, whether or not its backslash is itself escaped, in a pass of its own: text with an escaped "
+                       "backslash before %r is mis-read (from_n3 on the n3() text of 'C:\\xampp' raised UnicodeDecodeError, the n3() text of the lexical form \\x41 was read back as \\A)" % (a, a[1:]), node=c)
+    if n_fn == 0:
+        raise AnalysisError("no un-escaping function found in the package (compat.decodeUnicodeEscape changed shape)")
+    # from_n3: the lexical form of the literal built from quoted text went through un-escaping
+    um = repo.mod("rdflib.util")
+    f = um.func("from_n3")
+    rep.analysed("rdflib/util.py:from_n3")
+    s = f.args.args[0].arg
+    D = H.Defs(f)
+    sites = []
+    for c in own_nodes(f):
+        if not _is_literal_ctor(c):
+            continue
+        quoted = any(pol and isinstance(e, ast.Call) and isinstance(e.func, ast.Attribute) and e.func.attr == "startswith" and norm(e.func.value) == s and e.args
+                     and isinstance(e.args[0], ast.Constant) and isinstance(e.args[0].value, str) and e.args[0].value and set(e.args[0].value) <= set("\"'")
+                     for e, pol in H.atoms(H.path_conds(um, f, c)))
+        if quoted:
+            sites.append(c)
+    if not sites:
+        raise AnalysisError("from_n3: no Literal(...) built under a test that the text starts with a quote")
+    for c in sites:
+        lex = c.args[0] if c.args else next((k.value for k in c.keywords if k.arg == "lexical_or_value"), None)
+        if lex is None:
+            raise AnalysisError("from_n3: %s has no lexical form argument" % norm(c))
+        how = []
+        for x in H.backward_slice(D, lex):
+            for y in ast.walk(x):
+                if not isinstance(y, ast.Call):
+                    continue
+                if isinstance(y.func, ast.Name):
+                    root, where = H.root_callable(repo, um, y.func)
+                    if where is not None and (where.name, root) in unescapers:
+                        how.append("%s.%s()" % (where.name, root))
+                elif isinstance(y.func, ast.Attribute) and y.func.attr == "replace" and y.args and isinstance(y.args[0], ast.Constant) \
+                        and isinstance(y.args[0].value, str) and len(y.args[0].value) >= 2 and y.args[0].value[0] == "\\":
+                    how.append("replace(%r, ...)" % y.args[0].value)
+                elif isinstance(y.func, ast.Attribute) and y.func.attr == "decode" and any(
+                        isinstance(a, ast.Constant) and isinstance(a.value, str) and a.value.lower().replace("_", "-") == "unicode-escape" for a in y.args):
+                    how.append("decode('unicode-escape')")
+                elif isinstance(y.func, ast.Attribute) and y.func.attr in ("sub", "subn"):
+                    how.append(norm(y.func))
+        rep.ob(rid, um, "from_n3", "quoted text -> Literal(): un-escaped by %s" % (", ".join(sorted(set(how))) or "nothing"), bool(how),
+               "" if how else "the text between the quotes is handed to Literal() as written: from_n3('\"a\\\\nb\"') (the n3() text of a literal with a line feed) "
+               "is read with a backslash and an n", node=c)
+
+
+# ---------------------------------------------------------------------- (s)
+# a token -> is it a number of the Turtle / N3 / SPARQL grammars (INTEGER | DECIMAL | DOUBLE)?  with the reason it is in the table
+_NUMBER_WITNESSES: list[tuple[str, bool, str]] = [
+    ("1e+00", True, "what Literal(1.0).n3() writes: the exponent of '%e' is signed"),
+    ("-1.5e-03", True, "what Literal(-0.0015).n3() writes"),
+    ("1.000000E+00", True, "DOUBLE: upper-case exponent marker, signed exponent"),
+    ("+.5e-3", True, "DOUBLE: '.' [0-9]+ EXPONENT with a leading sign"),
+    ("+1", True, "INTEGER: [+-]? [0-9]+"),
+    ("-7", True, "INTEGER"),
+    ("42", True, "INTEGER"),
+    ("-0.5", True, "DECIMAL"),
+    (".5", True, "DECIMAL: [0-9]* '.' [0-9]+"),
+    ("\u0663", False, "ARABIC-INDIC DIGIT THREE: str.isnumeric()/isdigit() and int() take it, the grammar does not - it is a blank node label for from_n3"),
+    ("\uff11\uff12", False, "FULLWIDTH digits"),
+    ("1e\u0968", False, "DEVANAGARI digit in the exponent"),
+    ("\u00bd", False, "VULGAR FRACTION ONE HALF: str.isnumeric() is True, int() raises ValueError"),
+    ("\u00b2", False, "SUPERSCRIPT TWO: str.isdigit() is True, int() raises ValueError"),
+    ("e1", False, "no mantissa"),
+    ("1e", False, "no exponent digits"),
+    ("1e+", False, "no exponent digits"),
+    ("1-", False, "sign after the digits"),
+    ("--1", False, "two signs"),
+    ("1.2.3", False, "two points"),
+    ("1e1e1", False, "two exponents"),
+    ("1_000", False, "int() takes it, the grammar does not"),
+    ("+", False, "a sign alone"),
+    (".", False, "a point alone"),
+    ("", False, "empty"),
+    (" 1", False, "white space"),
+    ("1\n", False, "trailing line feed: `$` and match() let it through, int() strips it"),
+]
+
+
+def _witness_mismatches(accepts) -> list[str]:
+    bad = []
+    for w, want, why in _NUMBER_WITNESSES:
+        got = bool(accepts(w))
+        if got != want:
+            bad.append("%r is %s (%s)" % (w, "taken for a number" if got else "not taken for a number", why))
+    return bad
+
+
+def _full_match_guard(repo: Repo, mod, e: ast.AST, pol: bool, subject: str) -> Optional[tuple[str, int]]:
+    """(pattern, flags) when the atom (e, pol) says: the whole of <subject> matches a constant regular expression"""
+    if isinstance(e, ast.Compare) and len(e.ops) == 1 and isinstance(e.comparators[0], ast.Constant) and e.comparators[0].value is None:
+        positive = isinstance(e.ops[0], (ast.IsNot, ast.NotEq))
+        if not isinstance(e.ops[0], (ast.Is, ast.IsNot, ast.Eq, ast.NotEq)) or positive != pol:
+            return None
+        e, pol = e.left, True
+    if not (pol and isinstance(e, ast.Call) and isinstance(e.func, ast.Attribute) and e.func.attr in ("fullmatch", "match")):
+        return None
+    if isinstance(e.func.value, ast.Name) and e.func.value.id == "re" and len(e.args) >= 2:
+        txt = H.fold_str(repo, mod, e.args[0])
+        fl = H._re_flags(e.args[2] if len(e.args) > 2 else next((k.value for k in e.keywords if k.arg == "flags"), None))
+        pat = (txt, fl or 0) if txt is not None else H.const_pattern(repo, mod, e.args[0])
+        subj = e.args[1]
+    else:
+        pat = H.const_pattern(repo, mod, e.func.value)
+        subj = e.args[0] if e.args else None
+    if subj is None or norm(subj) != subject:
+        return None
+    if pat is None:
+        raise AnalysisError("%s: the pattern is not a constant of the module - unmodelled" % norm(e))
+    if e.func.attr == "match" and not H.pattern_ends_at_string_end(pat[0], pat[1]):
+        return None
+    return pat
+
+
+def _rule_s_number_grammar(repo: Repo, rep: Report) -> None:
+    import re as _re
+
+    rid = "C07.s-numeric-shorthand-by-grammar"
+    rep.rule(rid,
+             "util.from_n3 builds a numeric literal (Literal(..., datatype=XSD.integer/decimal/double)) from its text only under a FULL match of the text against a constant "
+             "regular expression, and that expression classifies a table of witnesses as the number grammar of Turtle/SPARQL does - as do the Turtle parser's own number patterns "
+             "(the sibling reader): the signed exponent n3() writes (1e+00, -1.5e-03) and a leading + are numbers; non-ASCII digits, fractions and superscripts (which str.isnumeric()/"
+             "isdigit() and int() take), 'e1', '1-' are not.  from_n3('1e+00') was a blank node, from_n3('\u0663') the integer 3", floor=5)
+    um = repo.mod("rdflib.util")
+    f = um.func("from_n3")
+    rep.analysed("rdflib/util.py:from_n3")
+    s = f.args.args[0].arg
+    D = H.Defs(f)
+    sites = [c for c in own_nodes(f) if _is_literal_ctor(c) and any(k.arg == "datatype" and norm(k.value).rsplit(".", 1)[-1] in ("integer", "decimal", "double", "float")
+                                                                    and "XSD" in norm(k.value) for k in c.keywords)]
+    if not sites:
+        raise AnalysisError("from_n3: no Literal(..., datatype=XSD.<numeric>) construction found")
+    pats: dict[tuple[str, int], ast.AST] = {}
+    for c in sites:
+        at = H.atoms(H.path_conds(um, f, c))
+        found = None
+        for e, pol in at:
+            e2 = D.resolve(e) if isinstance(e, ast.Name) else e
+            g = _full_match_guard(repo, um, e2, pol, s)
+            if g is not None:
+                found = g
+        # the tests that depend on the text, for the message
+        shown = "; ".join(("" if pol else "not ") + D.expand(e) for e, pol in at if pol and any(isinstance(x, ast.Name) and x.id == s for x in ast.walk(e)))
+        rep.ob(rid, um, "from_n3", "%s under a full match of the number grammar" % norm(c), found is not None,
+               "" if found is not None else "a numeric literal is built when `%s` holds, which is not a full match of the text against the number grammar: a test assembled from str "
+               "methods misses the signed exponent that n3() writes (from_n3('1e+00'), from_n3('-1.5e-03') are blank nodes) or admits what is not a number "
+               "(str.isnumeric()/isdigit() take '\u0663' and '\u00bd': the integer 3 for a blank node label, ValueError)" % shown[:200], node=c)
+        if found is not None:
+            pats.setdefault(found, c)
+    for (txt, fl), c in sorted(pats.items(), key=lambda kv: kv[0]):
+        try:
+            rx = _re.compile(txt, fl)
+        except _re.error as ex:
+            raise AnalysisError("from_n3: number pattern %r does not compile: %s" % (txt, ex)) from None
+        bad = _witness_mismatches(lambda w: rx.fullmatch(w) is not None)
+        rep.ob(rid, um, "from_n3", "number pattern %s classifies the %d witnesses as the grammar does" % (txt, len(_NUMBER_WITNESSES)), not bad,
+               "" if not bad else "for from_n3, " + "; ".join(bad[:4]), node=c)
+    # the sibling reader: the patterns the Turtle-family parser tries at a character that may start a number
+    nm = repo.mod("rdflib.plugins.parsers.notation3")
+    nf = nm.func("SinkParser.nodeOrLiteral")
+    rep.analysed("rdflib/plugins/parsers/notation3.py:SinkParser.nodeOrLiteral")
+    tpats: dict[str, tuple[str, int]] = {}
+    for c in own_nodes(nf):
+        if isinstance(c, ast.Call) and isinstance(c.func, ast.Attribute) and c.func.attr == "match" and isinstance(c.func.value, ast.Name) and len(c.args) == 2:
+            if not any(pol and any(isinstance(x, ast.Name) and x.id == "numberCharsPlus" for x in ast.walk(e)) for e, pol in H.atoms(H.path_conds(nm, nf, c))):
+                continue
+            p = H.const_pattern(repo, nm, c.func.value)
+            if p is None:
+                raise AnalysisError("SinkParser.nodeOrLiteral: %s is not a constant pattern" % norm(c.func.value))
+            tpats[c.func.value.id] = p
+    if len(tpats) < 3:
+        raise AnalysisError("SinkParser.nodeOrLiteral: the integer / decimal / double patterns not found (%s)" % sorted(tpats))
+    trx = [_re.compile(t, fl) for t, fl in tpats.values()]
+    bad = _witness_mismatches(lambda w: any(r.fullmatch(w) is not None for r in trx))
+    rep.ob(rid, nm, "SinkParser.nodeOrLiteral", "number patterns %s classify the witnesses as the grammar does" % sorted(tpats), not bad,
+           "" if not bad else "for the Turtle parser, " + "; ".join(bad[:4]), node=nf)
+
+
+# ---------------------------------------------------------------------- (t)
+def _implied_by_tagged_literal(typed, e: ast.AST, who: str) -> bool:
+    """e holds whenever <who> is a literal with a language tag: isinstance(who, <a class Literal is>), who.language, who.language is not None"""
+    if isinstance(e, ast.Call) and isinstance(e.func, ast.Name) and e.func.id == "isinstance" and len(e.args) == 2 and norm(e.args[0]) == who:
+        cl = e.args[1].elts if isinstance(e.args[1], ast.Tuple) else [e.args[1]]
+        supers = {m.rsplit(".", 1)[-1] for m in typed.mro("rdflib.term.Literal")}
+        return any(norm(c).rsplit(".", 1)[-1] in supers for c in cl)
+    if isinstance(e, ast.Compare) and len(e.ops) == 1 and isinstance(e.ops[0], (ast.IsNot, ast.NotEq)) and isinstance(e.comparators[0], ast.Constant) \
+            and e.comparators[0].value in (None, ""):
+        e = e.left
+    return isinstance(e, ast.Attribute) and e.attr in ("language", "_language") and norm(e.value) == who
+
+
+def _rule_t_digest_text(repo: Repo, rep: Report) -> None:
+    rid = "C07.t-digest-text-folds-language-case"
+    rep.rule(rid,
+             "in a module that hashes term text into a digest (it imports hashlib: rdflib/compare.py), x.n3() of a term that may be a literal with a language tag is taken only "
+             "(a) of a Literal(...) rebuilt with the tag case-folded, or (b) where the branch conditions exclude `isinstance(x, Literal) and x.language`: Literal equality and hash "
+             "ignore the case of the tag, n3() writes it as given, so the text is not a function of the term - two graphs that are equal triple by triple (\"chat\"@en vs "
+             "\"chat\"@EN) got different digests and isomorphic() said False", floor=2)
+    typed = repo.typed
+    lit_mro = set(typed.mro("rdflib.term.Literal"))
+    if "rdflib.term.Node" not in lit_mro:
+        raise AnalysisError("typed facts: rdflib.term.Literal has no MRO")
+    n = 0
+    for name, mod in sorted(repo.modules.items()):
+        if not any((isinstance(st, ast.Import) and any(a.name == "hashlib" for a in st.names)) or (isinstance(st, ast.ImportFrom) and st.module == "hashlib")
+                   for st in ast.walk(mod.tree)):
+            continue
+        for c in ast.walk(mod.tree):
+            if not (isinstance(c, ast.Call) and isinstance(c.func, ast.Attribute) and c.func.attr == "n3"):
+                continue
+            recv = c.func.value
+            tf = typed.type_of(name, recv)
+            if tf is not None and not tf.any and tf.items and all(i not in lit_mro and "rdflib.term.Literal" not in typed.mro(i) for i in tf.items if i != "builtins.None") \
+                    and any(i != "builtins.None" for i in tf.items):
+                continue  # an IRI, a blank node, a variable: no language tag
+            fn = H.enclosing_function(mod, c)
+            q = mod.qual_of(c) or "<module>"
+            n += 1
+            rep.analysed("%s:%s" % (mod.rel, q))
+            if _is_literal_ctor(recv):
+                lang = recv.args[1] if len(recv.args) > 1 else next((k.value for k in recv.keywords if k.arg == "lang"), None)
+                D = H.Defs(fn) if isinstance(fn, (ast.FunctionDef, ast.AsyncFunctionDef)) else None
+                if isinstance(lang, ast.Name) and D is not None:
+                    lang = D.resolve(lang)
+                folded = lang is None or (isinstance(lang, ast.Constant) and lang.value is None) or (
+                    isinstance(lang, ast.Call) and isinstance(lang.func, ast.Attribute) and lang.func.attr in ("lower", "casefold") and not lang.args)
+                rep.ob(rid, mod, q, "%s: n3() of a literal rebuilt with the tag case-folded" % norm(c), folded,
+                       "" if folded else "the literal is rebuilt with the language tag as written (%s): \"chat\"@en and \"chat\"@EN, which are equal, give different text" % norm(lang), node=c)
+                continue
+            ok = False
+            if isinstance(recv, ast.Name):
+                for e, pol in H.atoms(H.branch_facts(mod, fn, c)):
+                    if pol:
+                        continue
+                    conj = e.values if isinstance(e, ast.BoolOp) and isinstance(e.op, ast.And) else [e]
+                    if all(_implied_by_tagged_literal(typed, x, recv.id) for x in conj):
+                        ok = True
+            rep.ob(rid, mod, q, "%s: the term cannot be a literal with a language tag here" % norm(c), ok,
+                   "" if ok else "the n3() text of a term that may be a literal with a language tag goes into the digest with the tag as written: Literal('chat', lang='en') == "
+                   "Literal('chat', lang='EN'), but their texts differ, so two equal graphs hash differently (to_isomorphic(g1) != to_isomorphic(g2), isomorphic() is False)", node=c)
+    if n == 0:
+        raise AnalysisError("no n3() call on a possibly-literal term in a digest module (rdflib/compare.py changed shape)")
+
+
+# ---------------------------------------------------------------------- (u)
+def _rule_u_prepass(repo: Repo, rep: Report) -> None:
+    import re as _re
+
+    rid = "C07.u-escape-prepass-keeps-escaped-backslash"
+    rep.rule(rid,
+             "text that a function un-escapes by a substitution anchored at the backslash and THEN hands to a pyparsing grammar (X.parse_string(...)) is un-escaped a second time by "
+             "the grammar's string terminals (ECHAR), so the first pass must consume an escaped backslash as a unit (its pattern matches two backslashes, as the pattern of the TSV "
+             "result reader does): otherwise the u after an escaped backslash is taken for a codepoint escape.  " +
+             r"""The literal whose lexical form is \u0041 (backslash, u0041) has the n3() text "\\u0041"; the pre-pass turns that into "\A" (ParseException), and "\\u0022" is """ +
+             r"""read back as the literal whose lexical form is a double quote""", floor=3)
+    unescapers = _unescapers(repo)
+    n = 0
+    for name, mod in sorted(repo.modules.items()):
+        for q, fn in mod.functions():
+            calls = [c for c in own_nodes(fn) if isinstance(c, ast.Call) and isinstance(c.func, ast.Attribute) and c.func.attr in ("parse_string", "parseString") and c.args]
+            if not calls:
+                continue
+            D = H.Defs(fn)
+            for c in calls:
+                for x in H.backward_slice(D, c.args[0]):
+                    for y in ast.walk(x):
+                        if not (isinstance(y, ast.Call) and isinstance(y.func, ast.Name)):
+                            continue
+                        root, where = H.root_callable(repo, mod, y.func)
+                        ent = unescapers.get((where.name, root)) if where is not None else None
+                        if ent is None or not ent[3]:
+                            continue
+                        n += 1
+                        rep.analysed("%s:%s" % (mod.rel, q), "%s:%s" % (ent[0].rel, root))
+                        bad = [txt for _, txt, fl in ent[3] if _re.compile(txt, fl).fullmatch("\\\\") is None]
+                        rep.ob(rid, mod, q, "%s(...) -> %s: the pre-pass consumes an escaped backslash" % (root, norm(c.func)), not bad,
+                               "" if not bad else ("%s substitutes %s wherever it occurs, also right after an escaped backslash, and the grammar then un-escapes the result again: "
+                                                   % (root, " | ".join(bad))) +
+                               r"""the literal with the lexical form \u0041 (backslash, u0041) is written "\\u0041" by n3(), which becomes "\A" (ParseException); "\\u0022" is read """ +
+                               r"""back as the literal with the lexical form " (a double quote)""", node=y)
+    if n == 0:
+        raise AnalysisError("no escape pre-pass in front of a parse_string() call found (sparql.parser.parseQuery changed shape)")
